@@ -193,7 +193,7 @@ func DrawProxyParams(ch *sim.Choices, prop string) ProxyParams {
 		p.Proto, p.Protos, p.Auto = "http2", []string{"http2"}, false
 		p.NoRefuse = true
 		p.NConns = 1 + ch.Pick("params", "nconns18", 2)
-		p.ReqsPerConn = 1 + ch.Pick("params", "reqs18", 5)
+		p.ReqsPerConn = 1 + ch.Pick("params", "reqs18", 8)
 	}
 	if prop == "C11" {
 		p.Faults, p.NoRefuse = false, true
